@@ -840,9 +840,12 @@ class StepResult(Generic[TSimulatorState], metaclass=abc.ABCMeta):
         prng = value.parse_random_state(seed)
         for rep in bits:
             dims = [q.dimension for q in qubits]
+            # Every confusion matrix reads the measured values, as in _confuse_result,
+            # also when an earlier matrix already rewrote one of its indices.
+            measured = rep.copy()
             for indices, confuser in confusion_map.items():
                 mat_dims = [dims[k] for k in indices]
-                row = value.big_endian_digits_to_int((rep[k] for k in indices), base=mat_dims)
+                row = value.big_endian_digits_to_int((measured[k] for k in indices), base=mat_dims)
                 new_val = prng.choice(len(confuser), p=confuser[row])
                 new_bits = value.big_endian_int_to_digits(new_val, base=mat_dims)
                 for i, k in enumerate(indices):
